@@ -727,6 +727,18 @@ def check_gridflow(ctx: Ctx, ncells, cw, hsep, vsep, align, focus, maxcol, tall,
         return
     # the same GridFlow after its cell width is reassigned (the earlier canvas still alive): every cell gets the new width
     w_seen = {w}
+    if wide is not None:
+        # "setting this value affects all cells": assigning the very value cell_width already reports resets the cell with a width of its own
+        for p in probes:
+            del p.log[:]
+        ctx.count("evaluations")
+        ok, _ = guarded(ctx, V, "cell_width=", lambda: setattr(gf, "cell_width", cw))
+        if ok:
+            ok, canv3 = guarded(ctx, V, "render", lambda: gf.render((maxcol,), False))
+        if ok:
+            got3 = [r[1] for r in probes[wide].renders()]
+            if got3 != [(w,)] and not (got3 == [] and w in (ws[wide],)):
+                V("cell-width", f"after cell_width = {cw} (its current value) the cell that had its own width {cw + 2} is rendered at {got3}, expected [({w},)]", "own-width-reset")
     for cw2 in (sorted({cw + 1, max(1, cw - 1)} - {cw}) if wide is None else ()):
         for p in probes:
             del p.log[:]
